@@ -1820,6 +1820,9 @@ DLLIMPORT int cfg_parse(cfg_t *cfg, const char *filename)
 	int ret;
 	char *fn;
 	FILE *fp;
+#ifdef HAVE_SYS_STAT_H
+	struct stat st;
+#endif
 
 	if (!cfg || !filename) {
 		errno = EINVAL;
@@ -1836,6 +1839,13 @@ DLLIMPORT int cfg_parse(cfg_t *cfg, const char *filename)
 	free(cfg->filename);
 	cfg->filename = fn;
 
+#ifdef HAVE_SYS_STAT_H
+	/* fopen() succeeds on a directory, reading from it does not */
+	if (stat(cfg->filename, &st) == 0 && S_ISDIR(st.st_mode)) {
+		errno = EISDIR;
+		return CFG_FILE_ERROR;
+	}
+#endif
 	fp = fopen(cfg->filename, "r");
 	if (!fp)
 		return CFG_FILE_ERROR;
